@@ -33,6 +33,7 @@ type Opts struct {
 	Times      bool
 	Chunked    bool // use the begin/chunk/data form for some arrays
 	TopContainer bool // top-level object must be a list or map
+	ArrayBias  bool // make about half of the values arrays
 	NoNull     bool
 	ASCIIMedia bool // CTE cannot carry a non-ASCII media type (a round-trip matter, not ours)
 	Budget     int // rough cap on the number of events
@@ -188,6 +189,9 @@ func (g *sgen) plainValue(depth int, marked bool) {
 	t := g.t
 	canNest := depth < g.o.MaxDepth && g.count < g.o.Budget
 	kind := t.Intn("val-kind", 16)
+	if g.o.ArrayBias && kind != 3 && kind != 4 && t.Chance("array-bias", 1, 2) {
+		kind = []int{8, 2, 9, 15, 8, 2}[t.Intn("array-bias-kind", 6)]
+	}
 	switch kind {
 	case 0:
 		g.emit(rec.Ev{K: rec.KPositiveInt, U: g.uintv()})
